@@ -70,9 +70,10 @@ def run(ctx):
     ctx.rule = ("TLC: 9 direction grids x spectra over a 2-3 symbol alphabet x windows {1,2,3,5}^2 (even ones must be rejected); every state "
                 "replayed through spec.smooth and smooth_spec on a Dataset, plus leading-dimension and dyadic-spacing variants. "
                 "distinct_nontrivial = distinct non-constant (grid, spectrum, windows).")
-    if ctx.quick and len(vectors) > 2500:
+    cap = 2500 if ctx.quick else 40000       # the replay is single-threaded python: thorough replays a seeded 40 000 of the states
+    if len(vectors) > cap:
         ctx.rng.shuffle(vectors)
-        vectors = vectors[:2500]
+        vectors = vectors[:cap]
     for v in vectors:
         nf, D, E = v["nf"], v["D"], v["E"]
         F = [2 + 2 * i for i in range(nf)]
